@@ -730,6 +730,10 @@ fn apply_sack_to_sent_queue(
 impl<'a> Drop for SctpCleanupGuard<'a> {
     fn drop(&mut self) {
         *self.inner.state.lock() = SctpState::Closed;
+        // The association is over however the run loop ended (remote ABORT or
+        // SHUTDOWN, DTLS closed, retransmission limit): release every sender
+        // parked in the flow-control wait, not only on an explicit close().
+        self.inner.flow_control_notify.notify_waiters();
 
         let channels = self.inner.data_channels.lock();
         for weak_dc in channels.iter() {
